@@ -69,7 +69,8 @@ def applyRenames : List (Path × Path) → FS → FS
   | (o, n) :: rs, fs => applyRenames rs (rename fs o n)
 
 /-- `Refactoring.apply`, the phases in the order found in the source (`order` comes from
-the translator: `["writes", "renames"]`) -/
+the translator: `["writes", "renames"]`, with `"refuse-pathless"` in front once the source has
+`if None in self._file_to_node_changes: raise RefactoringError(..)` before the loops) -/
 def applyPhases (newlineArg : Option String) (linesep : Str) (r : Refactoring) :
     List String → FS → Outcome
   | [], fs => ⟨fs, none⟩
@@ -79,6 +80,9 @@ def applyPhases (newlineArg : Option String) (linesep : Str) (r : Refactoring) :
       | ⟨fs', none⟩ => applyPhases newlineArg linesep r phs fs'
       | out => out
     else if ph = "renames" then applyPhases newlineArg linesep r phs (applyRenames r.renames fs)
+    else if ph = "refuse-pathless" then
+      (if r.changes.any (fun c => c.path.isNone) then ⟨fs, some .refactoringError⟩
+       else applyPhases newlineArg linesep r phs fs)
     else applyPhases newlineArg linesep r phs fs
 
 /-- `calculate_to_path`: plain *string* prefix replacement, rename after rename
@@ -210,6 +214,28 @@ def renamedPath (old new q : Path) : Path := if old <+: q then new ++ q.drop old
 def toPath (mode : String) (renames : List (Path × Path)) (p : Path) : Path :=
   if mode = "components" then renames.foldl (fun p r => renamedPath r.1 r.2 p) p
   else partsOf (toPathStr (renames.map fun r => (pathStr r.1, pathStr r.2)) (pathStr p))
+
+/-- the loop of `calculate_to_path` when it *returns* at the first rename the path is below
+(`return to.joinpath(p.relative_to(from_))`) instead of assigning and going on -/
+def toPathFirst : List (Path × Path) → Path → Path
+  | [], p => p
+  | (o, n) :: rs, p => if o <+: p then n ++ p.drop o.length else toPathFirst rs p
+
+/-- `calculate_to_path(p)` on what it is really called with: the keys of `file_to_node_changes`,
+`None` for a `Script` without a path.
+```
+[if p is None: return p]                 -- noneGuard
+for from_, to in renames:
+    try: p = to.joinpath(p.relative_to(from_))   -- loop = "fold" | `return ...` = "first"
+    except ValueError: pass
+return p
+```
+Without the guard `None.relative_to(..)` is an `AttributeError` (not caught by `except ValueError`)
+in the first iteration; with no renames the loop body never runs and `None` comes back. -/
+def calcToPath (noneGuard : Bool) (loop mode : String) (renames : List (Path × Path)) :
+    Option Path → Except HdrErr (Option Path)
+  | none => if noneGuard || renames.isEmpty then .ok none else .error .attributeError
+  | some p => .ok (some (if loop = "first" then toPathFirst renames p else toPath mode renames p))
 
 /-! ## `until` position of extract_variable / extract_function -/
 
